@@ -484,11 +484,12 @@ def report_oracle(ctx, runs):
         if kind in seen_kinds:
             continue
         seen_kinds.add(kind)
-        steps = vlib.shrink_list(r.steps[:r.nsched], still_fails(r.cfgv, kind), max_steps=150)
+        steps = vlib.shrink_list(r.steps[:r.nsched], still_fails(r.cfgv, kind), max_steps=60)
         r2 = run_schedule(r.cfgv, steps)
         f2 = [t for k, t in r2.fails if k == kind] or [text]
         ctx.violation("%s: %s" % (kind, f2[0]), {"cfg": list(r.cfgv), "steps": [list(s) for s in steps], "kind": kind,
-                                                 "failures": f2[:5]})
+                                                 "failures": f2[:5],
+                                                 "executed_including_epilogue": [repr(s) for s in r2.steps]})
         reported += 1
 
 
